@@ -126,8 +126,8 @@ func (esp *EntityStreamParser) ParseTransaction(reader io.Reader) (*Transaction,
 				return nil, errors.New("parsing error: Unable to read next token " + err.Error())
 			}
 			delimVal, isDelim := t.(json.Delim)
-			if !isDelim && delimVal.String() != "[" {
-				return nil, errors.New("parsing error: Unexpected delimiter - expected [ but got : " + delimVal.String())
+			if !isDelim || delimVal.String() != "[" {
+				return nil, fmt.Errorf("parsing error: expected [ after dataset name %s", datasetName)
 			}
 			done := false
 			entities := make([]*Entity, 0)
@@ -147,6 +147,8 @@ func (esp *EntityStreamParser) ParseTransaction(reader io.Reader) (*Transaction,
 				} else if isDelim && delimVal.String() == "]" {
 					done = true
 					break
+				} else {
+					return nil, errors.New("parsing error: unexpected value in entity array of dataset " + datasetName)
 				}
 			}
 
@@ -155,6 +157,9 @@ func (esp *EntityStreamParser) ParseTransaction(reader io.Reader) (*Transaction,
 			}
 			txn.DatasetEntities[datasetName] = entities
 		}
+	}
+	if _, err = decoder.Token(); err != io.EOF {
+		return nil, errors.New("parsing error: unexpected data after end of transaction")
 	}
 	return txn, nil
 }
@@ -197,6 +202,9 @@ func (esp *EntityStreamParser) ParseStream(reader io.Reader, emitEntity func(*En
 				return errors.New("parsing error: Unable to read next token " + err.Error())
 			}
 		}
+		if done {
+			return errors.New("parsing error: unexpected data after end of entity array")
+		}
 
 		switch v := t.(type) {
 		case json.Delim:
@@ -213,6 +221,8 @@ func (esp *EntityStreamParser) ParseStream(reader io.Reader, emitEntity func(*En
 				// done
 				done = true
 				break
+			} else {
+				return errors.New("parsing error: unexpected delimiter in entity array")
 			}
 		default:
 			return errors.New("parsing error: unexpected value in entity array")
@@ -241,6 +251,7 @@ func (esp *EntityStreamParser) parseEntity(decoder *json.Decoder) (*Entity, erro
 			if v == '}' {
 				return e, nil
 			}
+			return nil, errors.New("unexpected delimiter in entity")
 		case string:
 			switch v {
 			case "id":
@@ -307,8 +318,9 @@ func (esp *EntityStreamParser) parseEntity(decoder *json.Decoder) (*Entity, erro
 				e.Properties["token"] = val
 			default:
 				// log named property
-				// read value
-				_, err := decoder.Token()
+				// read (and skip) the whole value, which may be an object or an array
+				var skipped json.RawMessage
+				err := decoder.Decode(&skipped)
 				if err != nil {
 					return nil, errors.New("unable to parse value of unknown key: " + v + err.Error())
 				}
@@ -322,9 +334,12 @@ func (esp *EntityStreamParser) parseEntity(decoder *json.Decoder) (*Entity, erro
 func (esp *EntityStreamParser) parseReferences(decoder *json.Decoder) (map[string]interface{}, error) {
 	refs := make(map[string]interface{})
 
-	_, err := decoder.Token()
+	start, err := decoder.Token()
 	if err != nil {
 		return nil, errors.New("unable to read token of at start of references " + err.Error())
+	}
+	if d, ok := start.(json.Delim); !ok || d != '{' {
+		return nil, errors.New("refs must be an object")
 	}
 
 	for {
@@ -362,9 +377,12 @@ func (esp *EntityStreamParser) parseReferences(decoder *json.Decoder) (map[strin
 func (esp *EntityStreamParser) parseProperties(decoder *json.Decoder) (map[string]interface{}, error) {
 	props := make(map[string]interface{})
 
-	_, err := decoder.Token()
+	start, err := decoder.Token()
 	if err != nil {
 		return nil, errors.New("unable to read token of at start of properties " + err.Error())
+	}
+	if d, ok := start.(json.Delim); !ok || d != '{' {
+		return nil, errors.New("props must be an object")
 	}
 
 	for {
@@ -413,6 +431,7 @@ func (esp *EntityStreamParser) parseRefValue(decoder *json.Decoder) (interface{}
 			if v == '[' {
 				return esp.parseRefArray(decoder)
 			}
+			return nil, errors.New("reference value must be a string or an array of strings")
 		case string:
 			nsRef, err := esp.store.GetNamespacedIdentifier(v, esp.localNamespaces)
 			if err != nil {
@@ -438,6 +457,7 @@ func (esp *EntityStreamParser) parseRefArray(decoder *json.Decoder) ([]string, e
 			if v == ']' {
 				return array, nil
 			}
+			return nil, errors.New("reference array may only contain strings")
 		case string:
 			nsRef, err := esp.store.GetNamespacedIdentifier(v, esp.localNamespaces)
 			if err != nil {
